@@ -17,8 +17,9 @@ from .thresha_common import FIELDS, run_worker, consts, validate_calls, failing_
 def plan(ctx):
     if ctx.quick:
         return [('GF(5)', 3, 1), ('GF(7)', 3, 1), ('GF(7)', 5, 2), ('GF(2^3)', 4, 1), ('GF(3^2)', 3, 1), ('GF(2^2)', 2, 0)]
-    return [(f, m, t) for f in FIELDS for (m, t) in ((2, 0), (3, 1), (4, 1), (5, 2), (7, 3))
-            if FIELDS[f][0] ** FIELDS[f][1] > m]
+    return [('GF(5)', 3, 1), ('GF(5)', 4, 1), ('GF(7)', 2, 0), ('GF(7)', 3, 1), ('GF(7)', 5, 2), ('GF(7)', 6, 2), ('GF(11)', 4, 1), ('GF(11)', 7, 3),
+            ('GF(13)', 5, 2), ('GF(13)', 7, 3), ('GF(2^2)', 2, 0), ('GF(2^2)', 3, 1), ('GF(2^3)', 4, 1), ('GF(2^3)', 7, 3), ('GF(3^2)', 3, 1),
+            ('GF(3^2)', 5, 2)]
 
 
 def run(ctx, prop='C12', invariants=('Recombines', 'DegreeT'), trace_invs=('SplitOK', 'RecombineOK'), neg=True):
@@ -44,7 +45,7 @@ def run(ctx, prop='C12', invariants=('Recombines', 'DegreeT'), trace_invs=('Spli
             variants = [False] + ([True] if have_np() else [])
             for use_np in variants:
                 job = {'what': 'shamir', 'p': P, 'd': D, 'modint': modint, 'm': m, 't': t, 'np': use_np,
-                       'seed': ctx.seed, 'budget': 350 if ctx.quick else 3000, 'multi': 6 if ctx.quick else 30}
+                       'seed': ctx.seed, 'budget': 350 if ctx.quick else 1500, 'multi': 6 if ctx.quick else 20}
                 d, err = run_worker(wd, job, tag + ('np' if use_np else ''))
                 if d is None:
                     ctx.violation(f'{prop}:impl-raises:{"np" if use_np else "list"}', {'field': fname, 'm': m, 't': t, 'stderr': err})
